@@ -309,6 +309,9 @@ def run(ctx):
                     p.append("operator literal written is %r, parser token for %s is %r" % (lits_between, v, tok))
                 if li > ri:
                     p.append("operands are emitted right-to-left")
+                if tok == "??" and (rank[ll] > rank["BitOr"] or rank[rl] > rank["BitOr"]):
+                    # ECMA-262: CoalesceExpression takes BitwiseORExpression operands; `a || b ?? c` and `a ?? b && c` are early errors
+                    p.append("`??` is written natively with operands allowed up to %s / %s: JavaScript forbids mixing `??` with `||` / `&&` without parentheses (operands must be at most BitOr)" % (ll, rl))
                 w = None
                 if p and v == "BitXor":
                     w = "{{ (a|b)^c }} emits D.a|D.b^D.c"
